@@ -1,6 +1,11 @@
 """C05 -- MusicXML scores parse to the notes, key, meter and tempo they declare
 (tree level: numeric leaves symbolic, structure from templates)."""
+import fractions
+import os
+import shutil
+import tempfile
 import xml.etree.ElementTree as ET
+import zipfile
 
 from props import common as K
 
@@ -8,26 +13,37 @@ META = {
     'level': 'model_checking',
     'level_text':
         'The real MusicXMLDocument/Part/Measure/Note/NoteDuration/KeySignature/'
-        'TimeSignature/Tempo classes and musicxml_to_sequence_proto are '
+        'TimeSignature/Tempo classes and musicxml_file_to_sequence_proto are '
         'executed on real ElementTree elements whose STRUCTURE comes from a '
         'small family of score templates and whose NUMERIC LEAVES (durations, '
         'octave, alter, fifths, chromatic transposition, MIDI channel/program, '
         'voice) are symbolic: the text of those elements is replaced by a '
         'SymText object that the shadowed int()/float() of the parser module '
         'unwrap. On every path the solver compares every emitted note (pitch, '
-        'onset, end, voice, part, channel, program), the key (tonic and mode), '
-        'the time signature and the tempo marks with an independent cursor '
-        'model written in the harness.',
+        'onset, end, voice, part, channel, program, notated value, velocity), '
+        'total_time, the keys (tonic, mode, time, number), the time '
+        'signatures, the tempo marks, the part_infos and the chord symbols '
+        'with an independent cursor model written in the harness. h_file / '
+        'h_invalid run the same function on real .xml / .mxl files written to '
+        'disk (every path is a concrete file).',
     'level_note':
-        'Trusted: z3, reals for doubles, symproto. XML tokenisation '
-        '(ET.fromstring) and the .mxl zip container are outside the claim: the '
-        'harness hands the parser an already built element tree (in the '
-        'replay it is the tree ET parses from the same template with the '
-        'model values written in as text). Chord symbols (<harmony>) are only '
-        'covered for their time position.',
-    'functions': [('musicxml_parser', 'MusicXMLDocument._parse'),
+        'Trusted: z3, reals for doubles, symproto. In h_score XML '
+        'tokenisation (ET.fromstring) is outside the claim: the harness hands '
+        'the parser an already built element tree through a patched '
+        '_get_score (in the replay it is the tree ET parses from the same '
+        'template with the model values written in as text). h_file and '
+        'h_invalid go through ET.parse and zipfile on concrete files: a '
+        'one-measure score with solver-enumerated leaves as .xml and as three '
+        '.mxl container layouts, and 19 invalid / unsupported inputs.',
+    'functions': [('musicxml_parser', 'MusicXMLDocument._get_score'),
+                  ('musicxml_parser', 'MusicXMLDocument._parse'),
+                  ('musicxml_parser', 'MusicXMLDocument.get_chord_symbols'),
+                  ('musicxml_parser', 'MusicXMLDocument.get_time_signatures'),
+                  ('musicxml_parser', 'MusicXMLDocument.get_key_signatures'),
+                  ('musicxml_parser', 'MusicXMLDocument.get_tempos'),
                   ('musicxml_parser', 'ScorePart._parse'),
                   ('musicxml_parser', 'Part._parse'),
+                  ('musicxml_parser', 'Part._repair_empty_measure'),
                   ('musicxml_parser', 'Measure._parse'),
                   ('musicxml_parser', 'Measure._parse_attributes'),
                   ('musicxml_parser', 'Measure._parse_backup'),
@@ -36,8 +52,10 @@ META = {
                   ('musicxml_parser', 'Measure._fix_time_signature'),
                   ('musicxml_parser', 'Note._parse'),
                   ('musicxml_parser', 'Note._parse_pitch'),
+                  ('musicxml_parser', 'Note._parse_tuplet'),
                   ('musicxml_parser', 'Note.pitch_to_midi_pitch'),
                   ('musicxml_parser', 'NoteDuration.parse_duration'),
+                  ('musicxml_parser', 'NoteDuration.duration_ratio'),
                   ('musicxml_parser', 'KeySignature._parse'),
                   ('musicxml_parser', 'TimeSignature._parse'),
                   ('musicxml_parser', 'Tempo._parse'),
@@ -46,38 +64,112 @@ META = {
                   ('musicxml_parser', 'ChordSymbol._parse_degree'),
                   ('musicxml_parser', 'ChordSymbol._alter_to_string'),
                   ('musicxml_parser', 'ChordSymbol.get_figure_string'),
-                  ('musicxml_reader', 'musicxml_to_sequence_proto')],
+                  ('musicxml_reader', 'musicxml_to_sequence_proto'),
+                  ('musicxml_reader', 'musicxml_file_to_sequence_proto')],
     'assumptions': [
         'complete measures (the voice-1 durations of a measure add up to the '
-        'declared meter); chord notes carry the duration of the note they are '
-        'stacked on',
+        'declared meter; a <forward> occurs only in a second voice or as the '
+        'only content of a measure); chord notes carry the duration of the '
+        'note they are stacked on; every first measure declares <time>',
         'divisions, meter and tempo values are concrete per job (grid); '
         'durations, octave (0..9), alter (-2..2), fifths (-7..7), transpose '
-        '(-12..12), MIDI channel/program, voice are symbolic',
-        'score structure from the templates single, chord, rest, two_voices, '
-        'two_measures, two_parts, retranspose, key_changes (three measures, '
-        'each declaring a key, fifths symbolic in -2..2), harmony (one <harmony> '
-        'with root / kind / one degree / bass / offset; step letters, kind '
-        'and degree value concrete per job, the three alters and the offset '
+        '(-12..12), MIDI channel/program, voice are symbolic; note type, dots '
+        'and tuplet ratio come from a table of rhythm patterns whose '
+        '<duration>s are the notated values',
+        'score structure from the templates single (optionally without tempo '
+        'mark / without key / tempo="0" / a tempo mark between two notes), '
+        'chord (one or two stacked notes), rest (rest first or in the middle), '
+        'two_voices (layouts: forward first / forward last / partial backup / '
+        'rest in the second voice / chord in the second voice), two_measures, '
+        'two_parts, retranspose, key_changes (three measures, each declaring '
+        'a key, fifths symbolic in -2..2), rhythm, empty_measure (a measure '
+        'with only a <forward> or a whole-measure rest), meter_change (second '
+        'measure with another <time> and / or <divisions>), parts (2..3 parts '
+        'of 1..2 measures; keys per part equal / own / absent; MIDI '
+        'information per part both / none / part missing from the part list), '
+        'harmony (one <harmony> with root / kind / up to two degrees / bass / '
+        'offset, before the first note, between two notes, or in a second '
+        'measure after a tempo change; step letters, kind and degree value '
+        'concrete per job or a solver-closed choice, the alters and the offset '
         'symbolic)',
+        'a tempo change with marks in part 0 only: known finding F-C05-d '
+        '(template parts_tempo); while it is open the times of the later '
+        'parts\' notes of that template are not compared',
     ],
     'bounds': {
-        'quick': 'templates with <=3 notes per measure, <=2 measures, <=2 parts',
+        'quick': 'templates with <=8 notes per measure, <=3 measures, <=3 '
+                 'parts; divisions {1,2,3,4,5,8,12,960}; all 45 entries of the '
+                 'kind table; h_file: octave x alter x duration split x fifths '
+                 '-1..1 x 3 container layouts',
         'thorough': 'all templates x divisions {1,2,4,24} x meters '
-                    '{4/4,3/4,6/8,2/2} x tempi {60,97.3,120}',
+                    '{4/4,3/4,6/8,2/2,3/8} x tempi {60,97.3,120}',
     },
-    'outside': ['XML text / tokenisation', '.mxl container', 'chord symbol '
-                'kinds beyond the 12 in the harness table, several degrees '
-                'per symbol', 'incomplete (pickup) measures'],
+    'outside': ['XML text / tokenisation and the .mxl container beyond the '
+                'files of h_file / h_invalid', 'more than two degrees per '
+                'chord symbol', 'incomplete (pickup) measures, scores without '
+                '<time>', 'chord notes whose <duration> differs from the note '
+                'they are stacked on', '<sound dynamics>, notes without '
+                '<voice>, <midi-instrument> with only one of channel / '
+                'program', 'tempo marks in parts other than the first'],
 }
 
 # MusicXML <kind> values -> the figure abbreviation used by note_seq
 _KIND = {'major': '', 'minor': 'm', 'augmented': 'aug', 'diminished': 'dim',
          'dominant': '7', 'major-seventh': 'maj7', 'minor-seventh': 'm7',
          'half-diminished': 'm7b5', 'suspended-fourth': 'sus',
-         'major-sixth': '6', 'dominant-ninth': '9', 'power': '5'}
+         'major-sixth': '6', 'dominant-ninth': '9', 'power': '5',
+         # the rest of the MusicXML kind-value list ...
+         'diminished-seventh': 'dim7', 'augmented-seventh': 'aug7',
+         'major-minor': 'm(maj7)', 'minor-sixth': 'm6', 'major-ninth': 'maj9',
+         'minor-ninth': 'm9', 'dominant-11th': '11', 'major-11th': 'maj11',
+         'minor-11th': 'm11', 'dominant-13th': '13', 'major-13th': 'maj13',
+         'minor-13th': 'm13', 'suspended-second': 'sus2', 'pedal': 'ped',
+         # ... and the non-standard spellings the parser documents as supported
+         'dominant-seventh': '7', 'augmented-ninth': 'aug9',
+         'minor-major': 'm(maj7)', 'min': 'm', 'aug': 'aug', 'dim': 'dim',
+         '7': '7', 'maj7': 'maj7', 'min7': 'm7', 'dim7': 'dim7',
+         'm7b5': 'm7b5', 'minMaj7': 'm(maj7)', '6': '6', 'min6': 'm6',
+         'maj69': '6(add9)', '9': '9', 'maj9': 'maj9', 'min9': 'm9',
+         'sus47': 'sus7'}
+# the 12 kinds of the original table (thorough-tier degree grid)
+_KIND12 = ('major', 'minor', 'augmented', 'diminished', 'dominant',
+           'major-seventh', 'minor-seventh', 'half-diminished',
+           'suspended-fourth', 'major-sixth', 'dominant-ninth', 'power')
 
 _STEP_PC = {'C': 0, 'D': 2, 'E': 4, 'F': 5, 'G': 7, 'A': 9, 'B': 11}
+
+# note-type names as fractions of a whole note
+_TYPE = {'breve': (2, 1), 'whole': (1, 1), 'half': (1, 2), 'quarter': (1, 4),
+         'eighth': (1, 8), '16th': (1, 16), '32nd': (1, 32)}
+
+
+def _notated(ntype, dots=0, tuplet=None):
+  """Notated value of a note as a fraction of a whole note: the type, `actual`
+  notes in the time of `normal` ones, each dot adding half of the previous
+  value (dotted quarter 3/8, triplet eighth 1/12)."""
+  r = fractions.Fraction(*_TYPE[ntype])
+  if tuplet:
+    r = r * tuplet[1] / tuplet[0]
+  return r * (2 - fractions.Fraction(1, 2 ** dots))
+
+
+# rhythm patterns: (type, dots, (actual, normal) | None) per note; the
+# <duration> of each note is its notated value in divisions
+_T3 = (3, 2)
+_RHYTHM = {
+    'dots_triplets': [('quarter', 1, None), ('eighth', 0, None),
+                      ('eighth', 0, _T3), ('eighth', 0, _T3),
+                      ('eighth', 0, _T3), ('quarter', 0, None)],
+    'double_dot': [('half', 2, None), ('eighth', 0, None)],
+    'whole': [('whole', 0, None)],
+    'triplet_quarters': [('quarter', 0, _T3), ('quarter', 0, _T3),
+                         ('quarter', 0, _T3), ('eighth', 1, None),
+                         ('16th', 0, None), ('quarter', 0, None)],
+    'quintuplet': [('16th', 0, (5, 4))] * 5 + [('quarter', 0, None)] * 3,
+    'breve': [('breve', 0, None)],
+    'half_32nds': [('half', 1, None), ('eighth', 1, None), ('32nd', 0, None),
+                   ('32nd', 0, None)],
+}
 
 
 class _Builder(object):
@@ -86,6 +178,7 @@ class _Builder(object):
   def __init__(self, c):
     self.c = c
     self.vals = {}
+    self.ratio = {}  # note index -> notated value (fraction of a whole note)
 
   def num(self, name, value):
     self.vals[name] = value
@@ -110,8 +203,10 @@ class _Builder(object):
     return ET.fromstring(txt)
 
 
-def _note_xml(b, i, step, chord=False, rest=False, voice=None, with_alter=True):
+def _note_xml(b, i, step, chord=False, rest=False, voice=None, with_alter=True,
+              ntype='quarter', dots=0, tuplet=None):
   c = b.c
+  b.ratio[i] = _notated(ntype, dots, tuplet)
   s = '<note>'
   if chord:
     s += '<chord/>'
@@ -129,7 +224,11 @@ def _note_xml(b, i, step, chord=False, rest=False, voice=None, with_alter=True):
   s += '<duration>%s</duration>' % b.num('n%d_dur' % i, b.vals['n%d_dur' % i])
   if voice is not None:
     s += '<voice>%s</voice>' % b.num('n%d_voice' % i, voice)
-  s += '<type>quarter</type></note>'
+  s += '<type>%s</type>' % ntype + '<dot/>' * dots
+  if tuplet:
+    s += ('<time-modification><actual-notes>%d</actual-notes><normal-notes>%d'
+          '</normal-notes></time-modification>' % tuple(tuplet))
+  s += '</note>'
   return s
 
 
@@ -141,6 +240,9 @@ def h_score(c):
   D = c.params['divisions']
   beats, beat_type = c.params['meter']
   qpm = c.params['qpm']
+  if c.params.get('no_tempo'):
+    qpm = None  # a score without any tempo mark
+  no_key = c.params.get('no_key')  # a score without any <key>
   mode = c.params.get('mode')  # 'major' | 'minor' | 'dorian' | None
   b = _Builder(c)
   assert (D * 4) % beat_type == 0, (
@@ -151,15 +253,17 @@ def h_score(c):
   if tpl == 'key_changes':
     fifths = c.int('fifths', -2, 2)
   else:
-    fifths = c.int('fifths', -7, 7) if tpl in ('single', 'chord') else -3
+    fifths = (c.int('fifths', -7, 7) if tpl in ('single', 'chord') and
+              not c.params.get('fixed_key') else -3)
   transpose = c.int('transpose', -12, 12) if c.params.get('transpose') else None
   chan = c.int('chan', 1, 16)
   prog = c.int('prog', 1, 128)
 
-  def attributes(with_key=True, with_transpose=False):
+  def attributes(with_key=True, with_transpose=False, key=None):
     s = '<attributes><divisions>%d</divisions>' % D
-    if with_key:
-      s += '<key><fifths>%s</fifths>' % b.num('fifths', fifths)
+    if with_key and not no_key:
+      kname, kval = key or ('fifths', fifths)
+      s += '<key><fifths>%s</fifths>' % b.num(kname, kval)
       if mode:
         s += '<mode>%s</mode>' % mode
       s += '</key>'
@@ -172,6 +276,8 @@ def h_score(c):
     return s
 
   def tempo(q):
+    if q is None:
+      return ''
     return '<direction><sound tempo="%s"/></direction>' % repr(float(q))
 
   # ---- templates: each yields XML for the parts and an event script for the
@@ -195,6 +301,10 @@ def h_score(c):
         with_transpose=transpose is not None) + tempo(qpm)
     script = [('tempo', qpm)]
     for i in range(k):
+      if i == 1 and c.params.get('tempo_mid') is not None:
+        # a tempo mark between two notes of a measure
+        xml += tempo(c.params['tempo_mid'])
+        script.append(('tempo', c.params['tempo_mid']))
       xml += _note_xml(b, i, steps[i % 3], voice=1)
       script.append(('note', i, steps[i % 3], 1))
     xml += '</measure>'
@@ -203,22 +313,32 @@ def h_score(c):
   elif tpl == 'chord':
     durs(['n0_dur', 'n2_dur'], measure_len)
     b.vals['n1_dur'] = b.vals['n0_dur']
+    stack3 = c.params.get('stack') == 3  # a second note stacked on the chord
+    if stack3:
+      b.vals['n3_dur'] = b.vals['n0_dur']
     xml = ('<measure number="1">' + attributes() + tempo(qpm) +
            _note_xml(b, 0, 'C', voice=1) + _note_xml(b, 1, 'E', chord=True,
                                                      voice=1) +
+           (_note_xml(b, 3, 'A', chord=True, voice=1, with_alter=False)
+            if stack3 else '') +
            _note_xml(b, 2, 'G', voice=1) + '</measure>')
     parts_xml.append(xml)
-    scripts.append([[('tempo', qpm), ('note', 0, 'C', 1), ('chord', 1, 'E', 1),
-                     ('note', 2, 'G', 1)]])
+    scripts.append([[('tempo', qpm), ('note', 0, 'C', 1), ('chord', 1, 'E', 1)] +
+                    ([('chord', 3, 'A', 1)] if stack3 else []) +
+                    [('note', 2, 'G', 1)]])
   elif tpl == 'rest':
     durs(['n0_dur', 'n1_dur', 'n2_dur'], measure_len)
+    rest_at = c.params.get('rest_at', 1)  # 0: the measure begins with the rest
+    assert rest_at in (0, 1)  # (a trailing rest is not part of total_time)
+    order = [1, 0, 2] if rest_at == 0 else [0, 1, 2]
+    item = {0: ('note', 0, 'D', 1), 1: ('rest', 1), 2: ('note', 2, 'B', 1)}
+    nx = {0: _note_xml(b, 0, 'D', voice=1),
+          1: _note_xml(b, 1, 'C', rest=True, voice=1),
+          2: _note_xml(b, 2, 'B', voice=1)}
     xml = ('<measure number="1">' + attributes() + tempo(qpm) +
-           _note_xml(b, 0, 'D', voice=1) + _note_xml(b, 1, 'C', rest=True,
-                                                     voice=1) +
-           _note_xml(b, 2, 'B', voice=1) + '</measure>')
+           ''.join(nx[i] for i in order) + '</measure>')
     parts_xml.append(xml)
-    scripts.append([[('tempo', qpm), ('note', 0, 'D', 1), ('rest', 1),
-                     ('note', 2, 'B', 1)]])
+    scripts.append([[('tempo', qpm)] + [item[i] for i in order]])
   elif tpl == 'two_voices':
     durs(['n0_dur', 'n1_dur'], measure_len)
     fwd = c.int('fwd', 1, 64)
@@ -226,15 +346,48 @@ def h_score(c):
     c.assume(c.eq(fwd + d2, measure_len))
     b.vals['n2_dur'] = d2
     v2 = c.int('voice2', 2, 4)
-    xml = ('<measure number="1">' + attributes() + tempo(qpm) +
-           _note_xml(b, 0, 'C', voice=1) + _note_xml(b, 1, 'F', voice=1, with_alter=False) +
-           '<backup><duration>%s</duration></backup>' % b.num('bk', measure_len) +
-           '<forward><duration>%s</duration></forward>' % b.num('fwd', fwd) +
-           _note_xml(b, 2, 'A', voice=v2) + '</measure>')
-    parts_xml.append(xml)
-    scripts.append([[('tempo', qpm), ('note', 0, 'C', 1), ('note', 1, 'F', 1),
-                     ('backup', 'bk'), ('forward', 'fwd'),
-                     ('note', 2, 'A', v2)]])
+    layout = c.params.get('layout', 'fwd_first')
+    head = ('<measure number="1">' + attributes() + tempo(qpm) +
+            _note_xml(b, 0, 'C', voice=1) +
+            _note_xml(b, 1, 'F', voice=1, with_alter=False))
+    hscript = [('tempo', qpm), ('note', 0, 'C', 1), ('note', 1, 'F', 1)]
+    bk_xml = '<backup><duration>%s</duration></backup>' % b.num('bk',
+                                                                 measure_len)
+    fwd_xml = '<forward><duration>%s</duration></forward>' % b.num('fwd', fwd)
+    if layout == 'fwd_first':
+      xml = head + bk_xml + fwd_xml + _note_xml(b, 2, 'A', voice=v2)
+      script = hscript + [('backup', 'bk'), ('forward', 'fwd'),
+                          ('note', 2, 'A', v2)]
+    elif layout == 'fwd_last':
+      # the second voice begins the measure and is padded by a <forward>
+      xml = head + bk_xml + _note_xml(b, 2, 'A', voice=v2) + fwd_xml
+      script = hscript + [('backup', 'bk'), ('note', 2, 'A', v2),
+                          ('forward', 'fwd')]
+    elif layout == 'partial':
+      # a <backup> of only the last `d2` divisions: the second voice enters
+      # there and fills the rest of the measure
+      b.vals['bk'] = d2
+      xml = (head + '<backup><duration>%s</duration></backup>' % b.num('bk', d2)
+             + _note_xml(b, 2, 'A', voice=v2))
+      script = hscript + [('backup', 'bk'), ('note', 2, 'A', v2)]
+    elif layout == 'rest_v2':
+      # the second voice is padded by a rest of its own instead of a <forward>
+      b.vals['n3_dur'] = fwd
+      xml = (head + bk_xml + _note_xml(b, 3, 'C', rest=True, voice=v2) +
+             _note_xml(b, 2, 'A', voice=v2))
+      script = hscript + [('backup', 'bk'), ('rest', 3), ('note', 2, 'A', v2)]
+    elif layout == 'chord_v2':
+      # a chord in the second voice (stacked on a note that follows a <backup>
+      # and a <forward>)
+      b.vals['n3_dur'] = d2
+      xml = (head + bk_xml + fwd_xml + _note_xml(b, 2, 'A', voice=v2) +
+             _note_xml(b, 3, 'E', chord=True, voice=v2, with_alter=False))
+      script = hscript + [('backup', 'bk'), ('forward', 'fwd'),
+                          ('note', 2, 'A', v2), ('chord', 3, 'E', v2)]
+    else:
+      raise ValueError(layout)
+    parts_xml.append(xml + '</measure>')
+    scripts.append([script])
   elif tpl == 'two_measures':
     q2 = c.params['qpm2']
     durs(['n0_dur', 'n1_dur'], measure_len)
@@ -273,38 +426,66 @@ def h_score(c):
   elif tpl == 'harmony':
     # <harmony> between two notes: root / kind / one degree / bass / offset
     hp = c.params['harmony']
+    pos = hp.get('pos', 'mid')  # 'mid' | 'start' (before the first note) | 'm2'
     durs(['n0_dur', 'n1_dur'], measure_len)
     ra = c.int('root_alter', -2, 2)
+    kind = hp.get('kind')
+    if hp.get('kinds'):
+      kind = c.choice('kind_i', hp['kinds'])
     hx = ('<harmony><root><root-step>%s</root-step><root-alter>%s</root-alter>'
-          '</root><kind>%s</kind>' % (hp['root'], b.num('root_alter', ra),
-                                      hp['kind']))
-    harmony = {'root': hp['root'], 'ra': ra, 'kind': hp['kind']}
-    if hp.get('degree'):
-      dv, dt = hp['degree']
-      da = c.int('degree_alter', -2, 2)
+          '</root><kind>%s</kind>' % (hp['root'], b.num('root_alter', ra), kind))
+    harmony = {'root': hp['root'], 'ra': ra, 'kind': kind, 'degrees': []}
+    for di, (dv, dt) in enumerate(hp.get('degrees') or
+                                  ([hp['degree']] if hp.get('degree') else [])):
+      dname = 'degree_alter' if di == 0 else 'degree_alter%d' % (di + 1)
+      da = c.int(dname, -2, 2)
       if dt == 'alter':
         c.assume(c.Not(c.eq(da, 0)))  # "alter by zero" is not well-formed
       hx += ('<degree><degree-value>%d</degree-value><degree-alter>%s'
              '</degree-alter><degree-type>%s</degree-type></degree>' %
-             (dv, b.num('degree_alter', da), dt))
-      harmony['degree'] = (dv, dt, da)
+             (dv, b.num(dname, da), dt))
+      harmony['degrees'].append((dv, dt, da))
     if hp.get('bass'):
       ba = c.int('bass_alter', -2, 2)
       hx += ('<bass><bass-step>%s</bass-step><bass-alter>%s</bass-alter></bass>'
              % (hp['bass'], b.num('bass_alter', ba)))
       harmony['bass'] = (hp['bass'], ba)
+    if pos == 'm2':
+      durs(['n2_dur', 'n3_dur'], measure_len)
     if hp.get('offset'):
       off = c.int('h_offset', -8, 8)
-      c.assume(b.vals['n0_dur'] + off >= 0)
+      # the symbol stays inside its measure
+      if pos == 'start':
+        c.assume(off >= 0)
+      else:
+        c.assume(b.vals['n2_dur' if pos == 'm2' else 'n0_dur'] + off >= 0)
       hx += '<offset>%s</offset>' % b.num('h_offset', off)
       harmony['offset'] = off
     hx += '</harmony>'
-    xml = ('<measure number="1">' + attributes() + tempo(qpm) +
-           _note_xml(b, 0, 'C', voice=1) + hx +
-           _note_xml(b, 1, 'E', voice=1, with_alter=False) + '</measure>')
+    n0x = _note_xml(b, 0, 'C', voice=1)
+    n1x = _note_xml(b, 1, 'E', voice=1, with_alter=False)
+    if pos == 'mid':
+      xml = ('<measure number="1">' + attributes() + tempo(qpm) + n0x + hx +
+             n1x + '</measure>')
+      script = [[('tempo', qpm), ('note', 0, 'C', 1), ('harmony', harmony),
+                 ('note', 1, 'E', 1)]]
+    elif pos == 'start':
+      xml = ('<measure number="1">' + attributes() + tempo(qpm) + hx + n0x +
+             n1x + '</measure>')
+      script = [[('tempo', qpm), ('harmony', harmony), ('note', 0, 'C', 1),
+                 ('note', 1, 'E', 1)]]
+    else:
+      # in the second measure, after a tempo change
+      q2 = hp.get('qpm2', 90)
+      xml = ('<measure number="1">' + attributes() + tempo(qpm) + n0x + n1x +
+             '</measure><measure number="2">' + tempo(q2) +
+             _note_xml(b, 2, 'G', voice=1, with_alter=False) + hx +
+             _note_xml(b, 3, 'A', voice=1, with_alter=False) + '</measure>')
+      script = [[('tempo', qpm), ('note', 0, 'C', 1), ('note', 1, 'E', 1)],
+                [('tempo', q2), ('note', 2, 'G', 1), ('harmony', harmony),
+                 ('note', 3, 'A', 1)]]
     parts_xml.append(xml)
-    scripts.append([[('tempo', qpm), ('note', 0, 'C', 1),
-                     ('harmony', harmony), ('note', 1, 'E', 1)]])
+    scripts.append(script)
   elif tpl == 'retranspose':
     # a transposing part that changes its transposition in the second measure
     # (possibly back to concert pitch: <chromatic>0</chromatic>)
@@ -332,16 +513,158 @@ def h_score(c):
     parts_xml += [xml1, xml2]
     scripts.append([[('tempo', qpm), ('note', 0, 'C', 1), ('note', 1, 'G', 1)]])
     scripts.append([[('note', 2, 'B', 1)]])
+  elif tpl == 'rhythm':
+    # dotted and tuplet notes of several types; every <duration> is the
+    # notated value in divisions
+    pats = c.params['patterns']
+    pat = _RHYTHM[pats[0] if len(pats) == 1 else c.choice('pattern', pats)]
+    xml = '<measure number="1">' + attributes() + tempo(qpm)
+    script = [('tempo', qpm)]
+    total = 0
+    for i, (ntype, dots, tuplet) in enumerate(pat):
+      d = _notated(ntype, dots, tuplet) * 4 * D
+      assert d.denominator == 1, 'pattern needs finer divisions'
+      b.vals['n%d_dur' % i] = int(d)
+      total += int(d)
+      step = 'CDEFGAB'[i % 7]
+      xml += _note_xml(b, i, step, voice=1, with_alter=(i == 0), ntype=ntype,
+                       dots=dots, tuplet=tuplet)
+      script.append(('note', i, step, 1))
+    assert total == measure_len, 'pattern does not fill the measure'
+    parts_xml.append(xml + '</measure>')
+    scripts.append([script])
+  elif tpl == 'empty_measure':
+    # the middle measure holds no note: only a <forward> over the whole
+    # measure, or a whole-measure rest
+    middle = c.params.get('middle', 'forward')
+    durs(['n0_dur'], measure_len)
+    durs(['n1_dur'], measure_len)
+    xml = ('<measure number="1">' + attributes() + tempo(qpm) +
+           _note_xml(b, 0, 'C', voice=1) + '</measure><measure number="2">')
+    if middle == 'forward':
+      # (literal digits: the parser copies this text into a rest)
+      xml += '<forward><duration>%d</duration></forward>' % measure_len
+      mid = ('forward', 'gap')
+      b.vals['gap'] = measure_len
+    else:
+      b.vals['n2_dur'] = measure_len
+      xml += _note_xml(b, 2, 'C', rest=True, voice=1, ntype='whole')
+      mid = ('rest', 2)
+    xml += ('</measure><measure number="3">' +
+            _note_xml(b, 1, 'E', voice=1, with_alter=False) + '</measure>')
+    parts_xml.append(xml)
+    scripts.append([[('tempo', qpm), ('note', 0, 'C', 1)], [mid],
+                    [('note', 1, 'E', 1)]])
+  elif tpl == 'meter_change':
+    # the second measure declares another meter and / or other divisions
+    beats2, beat_type2 = c.params.get('meter2') or (None, None)
+    D2 = c.params.get('divisions2') or D
+    len2 = (D2 * 4 * (beats2 or beats)) // (beat_type2 or beat_type)
+    assert (D2 * 4) % (beat_type2 or beat_type) == 0
+    durs(['n0_dur', 'n1_dur'], measure_len)
+    durs(['n2_dur', 'n3_dur'], len2)
+    a2 = '<attributes>'
+    m2 = []
+    if c.params.get('divisions2'):
+      a2 += '<divisions>%d</divisions>' % D2
+      m2.append(('divisions', D2))
+    if beats2:
+      a2 += '<time><beats>%d</beats><beat-type>%d</beat-type></time>' % (
+          beats2, beat_type2)
+      m2.append(('time', beats2, beat_type2))
+    a2 += '</attributes>'
+    xml = ('<measure number="1">' + attributes() + tempo(qpm) +
+           _note_xml(b, 0, 'C', voice=1) +
+           _note_xml(b, 1, 'D', voice=1, with_alter=False) +
+           '</measure><measure number="2">' + a2 +
+           _note_xml(b, 2, 'E', voice=1, with_alter=False) +
+           _note_xml(b, 3, 'F', voice=1, with_alter=False) + '</measure>')
+    parts_xml.append(xml)
+    scripts.append([[('tempo', qpm), ('note', 0, 'C', 1), ('note', 1, 'D', 1)],
+                    m2 + [('note', 2, 'E', 1), ('note', 3, 'F', 1)]])
+  elif tpl == 'parts':
+    # up to three parts: part p has part_measures[p] one-note measures; a part
+    # may declare the key of part 0 again ('same'), a key of its own ('own')
+    # or none (None); which parts carry MIDI information is the `midi` param
+    n_parts = c.params['n_parts']
+    pm = c.params.get('part_measures') or [1] * n_parts
+    pk = c.params.get('part_keys') or [True] + [None] * (n_parts - 1)
+    ni = 0
+    for p in range(n_parts):
+      if p == 0 or pk[p] == 'same':
+        key = ('fifths', fifths)
+      elif pk[p] == 'own':
+        key = ('fifths_p%d' % p, c.int('fifths_p%d' % p, -2, 2))
+      else:
+        key = None
+      xml = ''
+      script = []
+      for mi in range(pm[p]):
+        durs(['n%d_dur' % ni], measure_len)
+        xml += '<measure number="%d">' % (mi + 1)
+        sm = []
+        if mi == 0:
+          xml += attributes(with_key=key is not None, key=key)
+          if key is not None and not no_key:
+            sm.append(('key', key[1]))
+          if p == 0:
+            xml += tempo(qpm)
+            sm.append(('tempo', qpm))
+        step = 'CEGBDFA'[ni % 7]
+        xml += _note_xml(b, ni, step, voice=1, with_alter=(ni == 0))
+        xml += '</measure>'
+        sm.append(('note', ni, step, 1))
+        script.append(sm)
+        ni += 1
+      parts_xml.append(xml)
+      scripts.append(script)
+  elif tpl == 'parts_tempo':
+    # the tempo changes in the second measure; only part 0 carries the marks
+    # (as notation programs write them); both parts are played at the tempo
+    # in force
+    q2 = c.params['qpm2']
+    for ni in range(4):
+      durs(['n%d_dur' % ni], measure_len)
+    xml1 = ('<measure number="1">' + attributes() + tempo(qpm) +
+            _note_xml(b, 0, 'C', voice=1) + '</measure><measure number="2">' +
+            tempo(q2) + _note_xml(b, 1, 'D', voice=1, with_alter=False) +
+            '</measure>')
+    xml2 = ('<measure number="1">' + attributes() +
+            _note_xml(b, 2, 'E', voice=1, with_alter=False) +
+            '</measure><measure number="2">' +
+            _note_xml(b, 3, 'F', voice=1, with_alter=False) + '</measure>')
+    parts_xml += [xml1, xml2]
+    scripts.append([[('tempo', qpm), ('note', 0, 'C', 1)],
+                    [('tempo', q2), ('note', 1, 'D', 1)]])
+    scripts.append([[('tempo_in_force', qpm), ('note', 2, 'E', 1)],
+                    [('tempo_in_force', q2), ('note', 3, 'F', 1)]])
   else:
     raise ValueError(tpl)
 
+  # which parts have a <score-part> entry, and which of those MIDI information
+  midi = list(c.params.get('midi') or [])
+  part_midi = []  # per part: (channel, program, name)
   score = '<score-partwise><part-list>'
   for pi in range(len(parts_xml)):
+    m = midi[pi] if pi < len(midi) else ('both' if pi == 0 else 'none')
+    if m == 'unlisted':
+      # the part's id does not occur in the part list: default score part
+      part_midi.append((0, 0, ''))
+      continue
     score += '<score-part id="P%d"><part-name>Part %d</part-name>' % (pi, pi)
-    if pi == 0:
-      score += ('<midi-instrument id="P0-I1"><midi-channel>%s</midi-channel>'
+    if m == 'both':
+      if pi == 0:
+        ch, pg, chn, pgn = chan, prog, 'chan', 'prog'
+      else:
+        chn, pgn = 'chan%d' % pi, 'prog%d' % pi
+        ch, pg = c.int(chn, 1, 16), c.int(pgn, 1, 128)
+      score += ('<midi-instrument id="P%d-I1"><midi-channel>%s</midi-channel>'
                 '<midi-program>%s</midi-program></midi-instrument>' %
-                (b.num('chan', chan), b.num('prog', prog)))
+                (pi, b.num(chn, ch), b.num(pgn, pg)))
+      part_midi.append((ch, pg, 'Part %d' % pi))
+    else:
+      assert m == 'none', m
+      part_midi.append((0, 0, 'Part %d' % pi))
     score += '</score-part>'
   score += '</part-list>'
   for pi, px in enumerate(parts_xml):
@@ -349,24 +672,28 @@ def h_score(c):
   score += '</score-partwise>'
   tree = b.finish(score)
 
-  # hand the prepared tree to the real document class
-  orig = mp.MusicXMLDocument._get_score
+  # hand the prepared tree to the real document class; the conversion goes
+  # through musicxml_file_to_sequence_proto (the function of the statement)
+  orig = mp.MusicXMLDocument.__dict__['_get_score']  # (the staticmethod object)
   mp.MusicXMLDocument._get_score = staticmethod(lambda filename: tree)
   try:
-    doc = mp.MusicXMLDocument('in-memory')
+    seq = mr.musicxml_file_to_sequence_proto('in-memory')
   finally:
     mp.MusicXMLDocument._get_score = orig
-  seq = mr.musicxml_to_sequence_proto(doc)
 
   # ---- independent cursor model
   exp = []
+  exp2 = []  # (pitch, onset, part, voice, velocity, notated numerator, denom.)
+  ends = []
   cur_qpm = 120.0
   tempos = []
   chords = []
   keys = []
+  meters = [(0, beats, beat_type)]
   for pi, measures in enumerate(scripts):
     t = 0
     tr = 0
+    cur_D = D
     if tpl == 'two_parts' and pi == 1:
       tr = transpose
     elif transpose is not None and tpl == 'single':
@@ -375,36 +702,59 @@ def h_score(c):
     for m in measures:
       for item in m:
         if item[0] == 'tempo':
-          cur_qpm = float(item[1])
+          if item[1] is None:
+            continue  # (no_tempo: the mark is not written)
+          # tempo="0" stands for the default tempo
+          cur_qpm = float(item[1]) or 120.0
           if pi == 0:
             tempos.append((t, cur_qpm))
+        elif item[0] == 'tempo_in_force':
+          cur_qpm = float(item[1])
         elif item[0] == 'transpose':
           tr = item[1]
         elif item[0] == 'key':
           keys.append((t, item[1]))
+        elif item[0] == 'divisions':
+          cur_D = item[1]
+        elif item[0] == 'time':
+          meters.append((t, item[1], item[2]))
         elif item[0] == 'harmony':
           hm = item[1]
-          chords.append((t + hm.get('offset', 0) * (60.0 / cur_qpm) / D, hm))
+          chords.append((t + hm.get('offset', 0) * (60.0 / cur_qpm) / cur_D,
+                         hm))
         elif item[0] in ('note', 'chord', 'rest'):
           i = item[1]
           dur = b.vals['n%d_dur' % i]
-          secs = dur * (60.0 / cur_qpm) / D
+          secs = dur * (60.0 / cur_qpm) / cur_D
           onset = last_onset if item[0] == 'chord' else t
           if item[0] != 'rest':
             step, voice = item[2], item[3]
             pitch = (12 * (b.vals['n%d_oct' % i] + 1) + _STEP_PC[step] +
                      b.vals['n%d_alter' % i] + tr)
             exp.append((True, (pitch, onset, onset + secs, voice, pi,
-                               chan if pi == 0 else 0, prog if pi == 0 else 0)))
+                               part_midi[pi][0], part_midi[pi][1])))
+            exp2.append((True, (pitch, onset, pi, voice, 64,
+                                b.ratio[i].numerator, b.ratio[i].denominator)))
+            ends.append(onset + secs)
           if item[0] != 'chord':
             last_onset = t
             t = t + secs
         elif item[0] == 'backup':
-          t = t - b.vals[item[1]] * (60.0 / cur_qpm) / D
+          t = t - b.vals[item[1]] * (60.0 / cur_qpm) / cur_D
         elif item[0] == 'forward':
-          t = t + b.vals[item[1]] * (60.0 / cur_qpm) / D
+          t = t + b.vals[item[1]] * (60.0 / cur_qpm) / cur_D
+        else:
+          raise ValueError(item[0])
   got = [(n.pitch, n.start_time, n.end_time, n.voice, n.part, n.instrument,
           n.program) for n in seq.notes]
+  if tpl == 'parts_tempo' and c.known('F-C05-d'):
+    # known finding F-C05-d: the later parts are played at the last tempo of
+    # part 0.  While it is open, the times of the notes of parts >= 1 of THIS
+    # template are not compared (everything else about them is, and part 0 in
+    # full)
+    got = [g_ if g_[4] == 0 else (g_[0], 0, 0) + tuple(g_[3:]) for g_ in got]
+    exp = [(cd, e_ if e_[4] == 0 else (e_[0], 0, 0) + tuple(e_[3:]))
+           for cd, e_ in exp]
   # times are compared up to 1e-9 relative: the parser multiplies by the
   # concrete double STANDARD_PPQ / divisions, which is not exact for e.g. 24
   # divisions, while the reference divides exactly
@@ -412,6 +762,17 @@ def h_score(c):
           'one note per pitched <note>: pitch = step/alter/octave + '
           'transposition, onset/duration by the cursor arithmetic, voice, '
           'part, MIDI channel and program')
+  got2 = [(n.pitch, n.start_time, n.part, n.voice, n.velocity, n.numerator,
+           n.denominator) for n in seq.notes]
+  if tpl == 'parts_tempo' and c.known('F-C05-d'):
+    got2 = [g_ if g_[2] == 0 else (g_[0], 0) + tuple(g_[2:]) for g_ in got2]
+    exp2 = [(cd, e_ if e_[2] == 0 else (e_[0], 0) + tuple(e_[2:]))
+            for cd, e_ in exp2]
+  c.check(K.multiset_eq(c, got2, exp2, approx=(1,)),
+          'notated value of every note (type, dots, tuplet ratio as '
+          'numerator/denominator) and the default velocity 64')
+  c.check(c.approx(seq.total_time, c.Max(ends), 1e-9),
+          'total_time is the end of the last note of the longest part')
   # ---- key, meter, tempo
   c.check(len(seq.key_signatures) >= 1, 'a key signature is reported')
   ks = seq.key_signatures[0]
@@ -420,6 +781,11 @@ def h_score(c):
     # the written key moves with the part's transposition; only checked for
     # the untransposed templates
     eff = None
+  if no_key:
+    # "If no key signatures are found, create a default key signature of C
+    # major" (at the beginning)
+    assert mode is None
+    eff = 0
   if eff is not None:
     tonic = (eff * 7) % 12
     if mode == 'minor':
@@ -443,18 +809,62 @@ def h_score(c):
       c.check(c.And(c.approx(ks_.time, kt, 1e-9), c.eq(ks_.key, tonic_),
                     c.eq(ks_.mode, 1 if mode == 'minor' else 0)),
               'every key signature at the time it occurs')
+  elif tpl == 'parts':
+    # every part's key is reported; a key that an earlier part declared at the
+    # same time is reported once; no key at all = C major at 0
+    m01 = 1 if mode == 'minor' else 0
+    expk = []
+    for i, (kt, kf) in enumerate(keys):
+      dup = c.Or([c.And(c.eq(kf, kf2), c.eq(kt, kt2))
+                  for kt2, kf2 in keys[:i]] or [False])
+      tonic_ = (kf * 7 + (9 if m01 else 0)) % 12
+      expk.append((c.Not(dup), (tonic_, m01, kt)))
+    if not keys:
+      expk = [(True, (0, 0, 0))]
+    gotk = [(k.key, k.mode, k.time) for k in seq.key_signatures]
+    c.check(K.multiset_eq(c, gotk, expk),
+            'the keys of all parts are reported (equal keys at the same time '
+            'once; C major when no part declares a key)')
+    if len(keys) >= 2:
+      c.cover('two parts in different keys',
+              c.Not(c.eq(keys[0][1], keys[1][1])))
+  else:
+    c.check(len(seq.key_signatures) == 1,
+            'exactly one key signature for a score that declares one key (or '
+            'none)')
+  if transpose is not None and tpl == 'single' and c.params.get('tkey'):
+    # a transposing part is written in the key that lies `transpose`
+    # semitones away; the sounding key is reported (comment in
+    # _parse_attributes: every half step up is 5 steps backward on the circle
+    # of fifths)
+    concert = (fifths * 7 + transpose + (9 if mode == 'minor' else 0)) % 12
+    ok = c.eq(ks.key, concert)
+    c.check(ok, 'sounding key of a transposing part: written tonic + '
+            'chromatic transposition')
   c.check(len(seq.time_signatures) >= 1 and
           bool(c.And(c.eq(seq.time_signatures[0].numerator, beats),
                      c.eq(seq.time_signatures[0].denominator, beat_type),
                      c.eq(seq.time_signatures[0].time, 0))),
           'declared time signature at time 0')
-  c.check(len(seq.time_signatures) == 1,
+  c.check(len(seq.time_signatures) == len(meters),
           'complete measures add no further time signatures')
+  if len(meters) > 1:
+    c.check(K.multiset_eq(
+        c, [(x.time, x.numerator, x.denominator) for x in seq.time_signatures],
+        [(True, m_) for m_ in meters], approx=(0,)),
+            'every declared time signature at the time it occurs')
+  if not tempos:
+    # "If no tempos are found, create a default tempo of 120 qpm"
+    tempos = [(0, 120.0)]
   c.check(len(seq.tempos) == len(tempos) and bool(c.And(
       [c.And(c.approx(a.time, t_, 1e-9), c.approx(a.qpm, q_, 1e-9))
        for a, (t_, q_) in zip(seq.tempos, tempos)] or [True])),
           'tempo marks at the times they occur')
   c.check(len(seq.part_infos) == len(parts_xml), 'one part_info per part')
+  c.check(all(bool(c.eq(pinf.part, pi)) and pinf.name == part_midi[pi][2]
+              for pi, pinf in enumerate(seq.part_infos)),
+          'part_infos: part index and <part-name> (empty for a part without '
+          '<score-part>)')
   # ---- chord symbols
   c.check(len(seq.text_annotations) == len(chords),
           'one chord-symbol annotation per <harmony>')
@@ -464,8 +874,7 @@ def h_score(c):
       want = 'N.C.'
     else:
       want = hm['root'] + alter_str[c.concretize(hm['ra'])] + _KIND[hm['kind']]
-      if 'degree' in hm:
-        dv, dt, da = hm['degree']
+      for dv, dt, da in hm['degrees']:
         da = c.concretize(da)
         if dt == 'add':
           want += '(%s%d)' % (alter_str[da] or 'add', dv)
@@ -487,7 +896,235 @@ def h_score(c):
                  c.And(b.vals['n0_alter'] > 0, steps[0] == 'B')))
 
 
-HARNESSES = {'h_score': h_score}
+_MIME = 'application/vnd.recordare.musicxml+xml'
+
+
+def _container(rootfiles):
+  return ('<?xml version="1.0" encoding="UTF-8"?><container><rootfiles>' +
+          ''.join('<rootfile full-path="%s"%s/>' %
+                  (path, ' media-type="%s"' % mt if mt else '')
+                  for path, mt in rootfiles) + '</rootfiles></container>')
+
+
+def _write_mxl(path, members):
+  with zipfile.ZipFile(path, 'w', zipfile.ZIP_DEFLATED) as z:
+    for name, data in members:
+      z.writestr(name, data)
+
+
+def h_file(c):
+  """The same score as a plain .xml file and inside .mxl containers: read from
+  disk by musicxml_file_to_sequence_proto (no patching).  The numeric leaves
+  are solver-chosen but written as text, so every path is a concrete file."""
+  mr = c.mod('musicxml_reader')
+  D = c.params['divisions']
+  beats, beat_type = c.params['meter']
+  qpm = c.params['qpm']
+  mode = c.params.get('mode')
+  measure_len = D * 4 * beats // beat_type
+  octv = c.concretize(c.int('n0_oct', 0, 9))
+  alter = c.concretize(c.int('n0_alter', -2, 2))
+  d0 = c.int('n0_dur', 1, measure_len - 1)
+  d0 = c.concretize(d0)
+  d1 = measure_len - d0
+  fifths = c.concretize(c.int('fifths', -1, 1))
+  chan = c.concretize(c.int('chan', 1, 2))
+  variant = c.choice('container', ['typed', 'untyped', 'other_first'])
+
+  def note(step, alt, o, d):
+    return ('<note><pitch><step>%s</step><alter>%d</alter><octave>%d</octave>'
+            '</pitch><duration>%d</duration><voice>1</voice><type>quarter'
+            '</type></note>' % (step, alt, o, d))
+
+  score = (
+      '<?xml version="1.0" encoding="UTF-8"?>\n<score-partwise version="3.0">'
+      '<work><work-title>Title é</work-title></work><identification>'
+      '<creator type="composer">Composer</creator></identification>'
+      '<part-list><score-part id="P1"><part-name>Solo</part-name>'
+      '<midi-instrument id="P1-I1"><midi-channel>%d</midi-channel>'
+      '<midi-program>7</midi-program></midi-instrument></score-part>'
+      '</part-list>\n<part id="P1"><measure number="1"><attributes><divisions>'
+      '%d</divisions><key><fifths>%d</fifths>%s</key><time><beats>%d</beats>'
+      '<beat-type>%d</beat-type></time></attributes><direction><sound tempo='
+      '"%s"/></direction>%s%s</measure></part></score-partwise>\n' %
+      (chan, D, fifths, '<mode>%s</mode>' % mode if mode else '', beats,
+       beat_type, repr(float(qpm)), note('B', alter, octv, d0),
+       note('C', 0, 4, d1))).encode('utf-8')
+  if variant == 'typed':
+    members = [('META-INF/container.xml', _container([('score.xml', _MIME)])),
+               ('score.xml', score)]
+  elif variant == 'untyped':
+    # the media-type attribute is optional
+    members = [('META-INF/container.xml',
+                _container([('sub/the score.xml', None)])),
+               ('sub/the score.xml', score)]
+  else:
+    # further root files of other types (a rendering) may be listed
+    members = [('score.pdf', b'%PDF-1.4'),
+               ('META-INF/container.xml',
+                _container([('score.pdf', 'application/pdf'),
+                            ('score.xml', _MIME)])), ('score.xml', score)]
+  tmp = tempfile.mkdtemp(prefix='c05_')
+  try:
+    with open(os.path.join(tmp, 'score.xml'), 'wb') as f:
+      f.write(score)
+    _write_mxl(os.path.join(tmp, 'score.mxl'), members)
+    seq = mr.musicxml_file_to_sequence_proto(os.path.join(tmp, 'score.xml'))
+    seq_z = mr.musicxml_file_to_sequence_proto(os.path.join(tmp, 'score.mxl'))
+  finally:
+    shutil.rmtree(tmp, ignore_errors=True)
+  c.check(c.msg_eq(seq, seq_z),
+          'the compressed .mxl yields the same NoteSequence as the plain .xml')
+  spd = (60.0 / qpm) / D
+  exp = [(12 * (octv + 1) + 11 + alter, 0, d0 * spd, 1, 0, chan, 7),
+         (60, d0 * spd, measure_len * spd, 1, 0, chan, 7)]
+  for s_, label in ((seq, '.xml'), (seq_z, '.mxl')):
+    got = [(n.pitch, n.start_time, n.end_time, n.voice, n.part, n.instrument,
+            n.program) for n in s_.notes]
+    c.check(K.multiset_eq(c, got, [(True, e) for e in exp], approx=(1, 2)),
+            'notes of the score read from a %s file' % label)
+    tonic = (fifths * 7 + (9 if mode == 'minor' else 0)) % 12
+    c.check(len(s_.key_signatures) == 1 and
+            bool(c.And(c.eq(s_.key_signatures[0].key, tonic),
+                       c.eq(s_.key_signatures[0].mode,
+                            1 if mode == 'minor' else 0),
+                       c.eq(s_.key_signatures[0].time, 0))) and
+            len(s_.time_signatures) == 1 and
+            bool(c.And(c.eq(s_.time_signatures[0].numerator, beats),
+                       c.eq(s_.time_signatures[0].denominator, beat_type))) and
+            len(s_.tempos) == 1 and
+            bool(c.And(c.approx(s_.tempos[0].qpm, float(qpm), 1e-9),
+                       c.eq(s_.tempos[0].time, 0))),
+            'key, meter and tempo of the score read from a %s file' % label)
+    c.check(s_.sequence_metadata.title == u'Title é' and
+            list(s_.sequence_metadata.composers) == ['Composer'] and
+            len(s_.part_infos) == 1 and s_.part_infos[0].name == 'Solo',
+            'work title, composer and part name of the %s file' % label)
+  c.cover('B sharp / C flat region in a file', alter != 0)
+
+
+_GOOD_NOTE = ('<note><pitch><step>C</step><octave>4</octave></pitch><duration>4'
+              '</duration><voice>1</voice><type>whole</type></note>')
+_GOOD_ATTR = ('<divisions>1</divisions><key><fifths>0</fifths></key><time>'
+              '<beats>4</beats><beat-type>4</beat-type></time>')
+
+
+def _wrap_score(measure):
+  return ('<score-partwise><part-list><score-part id="P1"><part-name>x'
+          '</part-name></score-part></part-list><part id="P1"><measure '
+          'number="1">%s</measure></part></score-partwise>' % measure)
+
+
+def _harmony(kind='major', extra=''):
+  return ('<harmony><root><root-step>C</root-step></root><kind>%s</kind>%s'
+          '</harmony>' % (kind, extra))
+
+
+# name -> (file name, bytes | list of zip members): inputs that are NOT valid
+# MusicXML files / scores the parser documents as unsupported
+_INVALID = {
+    'not_xml': ('a.xml', b'<score-partwise><part-list>'),
+    'not_a_zip': ('a.mxl', b'<score-partwise/>'),
+    'mxl_without_container': ('a.mxl', [('score.xml', _wrap_score(
+        '<attributes>' + _GOOD_ATTR + '</attributes>' + _GOOD_NOTE))]),
+    'mxl_two_scores': ('a.mxl', [
+        ('META-INF/container.xml', _container([('a.xml', _MIME),
+                                               ('b.xml', _MIME)])),
+        ('a.xml', _wrap_score('<attributes>' + _GOOD_ATTR + '</attributes>' +
+                              _GOOD_NOTE)),
+        ('b.xml', _wrap_score('<attributes>' + _GOOD_ATTR + '</attributes>' +
+                              _GOOD_NOTE))]),
+    'mxl_missing_member': ('a.mxl', [
+        ('META-INF/container.xml', _container([('gone.xml', _MIME)]))]),
+    'mxl_member_not_xml': ('a.mxl', [
+        ('META-INF/container.xml', _container([('a.xml', _MIME)])),
+        ('a.xml', '<score-partwise>')]),
+    'unpitched': ('a.xml', _wrap_score(
+        '<attributes>' + _GOOD_ATTR + '</attributes><note><unpitched>'
+        '<display-step>E</display-step><display-octave>4</display-octave>'
+        '</unpitched><duration>4</duration><voice>1</voice><type>whole</type>'
+        '</note>')),
+    'step_Q': ('a.xml', _wrap_score(
+        '<attributes>' + _GOOD_ATTR + '</attributes>' +
+        _GOOD_NOTE.replace('<step>C', '<step>Q'))),
+    'note_type': ('a.xml', _wrap_score(
+        '<attributes>' + _GOOD_ATTR + '</attributes>' +
+        _GOOD_NOTE.replace('whole', 'semibreve'))),
+    'two_time': ('a.xml', _wrap_score(
+        '<attributes>' + _GOOD_ATTR + '<time><beats>3</beats><beat-type>4'
+        '</beat-type></time></attributes>' + _GOOD_NOTE)),
+    'alternating_time': ('a.xml', _wrap_score(
+        '<attributes><divisions>1</divisions><time><beats>2</beats><beat-type>'
+        '4</beat-type><beats>3</beats><beat-type>8</beat-type></time>'
+        '</attributes>' + _GOOD_NOTE)),
+    'composite_time': ('a.xml', _wrap_score(
+        '<attributes><divisions>1</divisions><time><beats>3+2</beats>'
+        '<beat-type>8</beat-type></time></attributes>' + _GOOD_NOTE)),
+    'key_without_fifths': ('a.xml', _wrap_score(
+        '<attributes><divisions>1</divisions><key><mode>major</mode></key>'
+        '</attributes>' + _GOOD_NOTE)),
+    'unknown_kind': ('a.xml', _wrap_score(
+        '<attributes>' + _GOOD_ATTR + '</attributes>' + _harmony('tristan') +
+        _GOOD_NOTE)),
+    'degree_alter_zero': ('a.xml', _wrap_score(
+        '<attributes>' + _GOOD_ATTR + '</attributes>' + _harmony(
+            'major', '<degree><degree-value>5</degree-value><degree-alter>0'
+            '</degree-alter><degree-type>alter</degree-type></degree>') +
+        _GOOD_NOTE)),
+    'degree_type': ('a.xml', _wrap_score(
+        '<attributes>' + _GOOD_ATTR + '</attributes>' + _harmony(
+            'major', '<degree><degree-value>5</degree-value><degree-alter>1'
+            '</degree-alter><degree-type>raise</degree-type></degree>') +
+        _GOOD_NOTE)),
+    'root_alter_3': ('a.xml', _wrap_score(
+        '<attributes>' + _GOOD_ATTR + '</attributes>' +
+        _harmony().replace('</root-step>',
+                           '</root-step><root-alter>3</root-alter>') +
+        _GOOD_NOTE)),
+    'harmony_without_root': ('a.xml', _wrap_score(
+        '<attributes>' + _GOOD_ATTR + '</attributes><harmony><kind>major'
+        '</kind></harmony>' + _GOOD_NOTE)),
+    'harmony_in_transposed_part': ('a.xml', _wrap_score(
+        '<attributes>' + _GOOD_ATTR + '<transpose><chromatic>-2</chromatic>'
+        '</transpose></attributes>' + _harmony() + _GOOD_NOTE)),
+}
+
+
+def h_invalid(c):
+  """A file that is not a MusicXML file, or a score the parser documents as
+  unsupported, raises MusicXMLConversionError (never another exception, never
+  a NoteSequence); the valid twin of the same file converts."""
+  mr = c.mod('musicxml_reader')
+  names = c.params['cases']
+  name = c.choice('case', names)
+  fname, data = _INVALID[name]
+  tmp = tempfile.mkdtemp(prefix='c05_')
+  try:
+    path = os.path.join(tmp, fname)
+    if isinstance(data, list):
+      _write_mxl(path, data)
+    else:
+      with open(path, 'wb') as f:
+        f.write(data if isinstance(data, bytes) else data.encode('utf-8'))
+    res, err = c.raises(mr.musicxml_file_to_sequence_proto, path)
+    # control: the well-formed score of the same shape converts
+    good = os.path.join(tmp, 'good.xml')
+    with open(good, 'w') as f:
+      f.write(_wrap_score('<attributes>' + _GOOD_ATTR + '</attributes>' +
+                          _harmony() + _GOOD_NOTE))
+    res2, err2 = c.raises(mr.musicxml_file_to_sequence_proto, good)
+  finally:
+    shutil.rmtree(tmp, ignore_errors=True)
+  c.check(res is None and isinstance(err, mr.MusicXMLConversionError),
+          'an invalid or unsupported file raises MusicXMLConversionError')
+  c.check(err2 is None and len(res2.notes) == 1 and
+          len(res2.text_annotations) == 1 and res2.text_annotations[0].text ==
+          'C', 'the well-formed twin converts')
+  c.cover('an invalid .mxl container', fname.endswith('.mxl'))
+  c.cover('an unsupported score', name == 'unpitched')
+
+
+HARNESSES = {'h_score': h_score, 'h_file': h_file, 'h_invalid': h_invalid}
 
 
 def jobs(tier):
@@ -532,7 +1169,96 @@ def jobs(tier):
       meter=[6, 8])
   add(template='single', notes=2, steps=['C', 'D'], mode='major', divisions=1,
       meter=[6, 4])
+  # ---- defaults: a score without tempo mark / without key / both
+  add(template='single', notes=2, steps=['C', 'G'], mode=None, no_tempo=True)
+  add(template='two_voices', no_tempo=True, no_key=True, meter=[3, 4])
+  add(template='single', notes=1, steps=['E'], mode=None, no_key=True, qpm=90)
+  # tempo="0" stands for the default tempo
+  add(template='single', notes=1, steps=['A'], mode=None, qpm=0)
+  # a tempo mark between two notes of a measure
+  add(template='single', notes=2, steps=['E', 'B'], mode=None, qpm=90,
+      tempo_mid=60)
+  # sounding key of a transposing part.
+  # (F-C05-c, fixed: fifths + (-5*transpose mod 12) >= 13 was folded with
+  # `%= -6`: <fifths>3</fifths> with <chromatic>-2</chromatic> was reported as
+  # Db major instead of G major)
+  add(template='single', notes=1, steps=['D'], transpose=True, tkey='full')
+  add(template='single', notes=1, steps=['G'], transpose=True, tkey='full',
+      mode='minor', meter=[6, 8])
+  # ---- chords of three notes, chords in a second voice
+  add(template='chord', mode='major', stack=3, meter=[3, 4], fixed_key=True)
+  add(template='two_voices', layout='chord_v2', qpm=90)
+  # ---- second voice: padded at the end, entering after a partial backup,
+  # padded by its own rest; a measure that begins with a rest
+  add(template='two_voices', layout='fwd_last', meter=[3, 4])
+  add(template='two_voices', layout='partial', divisions=4, qpm=97.3)
+  add(template='two_voices', layout='rest_v2', meter=[6, 8])
+  add(template='rest', rest_at=0, mode='minor', qpm=90)
+  # ---- dotted notes, tuplets, other note types
+  add(template='rhythm', divisions=12,
+      patterns=['dots_triplets', 'double_dot', 'whole', 'triplet_quarters'])
+  add(template='rhythm', divisions=5, patterns=['quintuplet'], qpm=90)
+  add(template='rhythm', divisions=8, patterns=['half_32nds'], meter=[2, 2])
+  add(template='rhythm', divisions=1, patterns=['breve'], meter=[4, 2])
+  # ---- a measure without notes (only a <forward>, or a whole-measure rest)
+  add(template='empty_measure', middle='forward', meter=[3, 4], qpm=90)
+  add(template='empty_measure', middle='rest', divisions=1)
+  # ---- the meter and / or the divisions change in the second measure
+  add(template='meter_change', meter=[4, 4], meter2=[3, 4])
+  add(template='meter_change', meter=[6, 8], meter2=[2, 4], divisions2=1,
+      qpm=90)
+  add(template='meter_change', meter=[3, 4], divisions=1, divisions2=4)
+  add(template='meter_change', meter=[3, 4], meter2=[3, 4], divisions=4)
+  # ---- several parts: tempo other than the default carried into the later
+  # parts, MIDI information on later parts, a part missing from the part
+  # list, keys on several parts, parts of different lengths
+  add(template='two_parts', transpose=True, qpm=90)
+  add(template='parts', n_parts=2, midi=['none', 'both'], qpm=90,
+      part_keys=[True, 'own'], part_measures=[1, 2])
+  add(template='parts', n_parts=3, midi=['both', 'unlisted', 'both'],
+      part_keys=[True, 'same', 'own'], part_measures=[2, 1, 1], mode='minor',
+      meter=[3, 4])
+  add(template='parts', n_parts=2, midi=['unlisted', 'none'], no_key=True,
+      no_tempo=True)
+  # KNOWN FINDING F-C05-d: a tempo change in part 0 (the only part that
+  # carries the marks) is not applied to the later parts: they are played
+  # throughout at the LAST tempo of part 0.  divisions=1, 4/4, part 0 = tempo
+  # 60, whole note, tempo 120, whole note; part 1 = two whole notes without
+  # marks -> part 1 is reported at 0-2 s and 2-4 s, but the tempo in force
+  # gives 0-4 s and 4-6 s (as in part 0)
+  add(template='parts_tempo', qpm=60, qpm2=120, divisions=1)
+  # (the same template with one tempo, restated in the second measure)
+  add(template='parts_tempo', qpm=90, qpm2=90)
+  # ---- chord symbols: before the first note, in the second measure after a
+  # tempo change, two degrees, offsets at 4 divisions, the remaining kinds
+  add(template='harmony', harmony={'root': 'E', 'kind': 'minor', 'pos': 'start',
+                                   'offset': True, 'bass': 'G'}, divisions=4)
+  add(template='harmony', harmony={'root': 'A', 'kind': 'dominant-13th',
+                                   'pos': 'm2', 'offset': True, 'qpm2': 60},
+      divisions=4, qpm=90)
+  add(template='harmony', harmony={'root': 'D', 'kind': 'suspended-second',
+                                   'degrees': [[7, 'add'], [5, 'alter']]},
+      meter=[3, 4])
+  rest_kinds = sorted(k for k in _KIND if k not in (
+      'major', 'minor-seventh', 'dominant', 'major-seventh', 'none',
+      'dominant-13th', 'suspended-second', 'minor'))
+  add(template='harmony', harmony={'root': 'F', 'kinds': rest_kinds[:20]})
+  add(template='harmony', harmony={'root': 'G', 'kinds': rest_kinds[20:]})
+  # ---- other divisions of the quantifier
+  add(template='single', notes=2, steps=['C', 'A'], mode=None, divisions=3,
+      qpm=97.3)
+  add(template='two_measures', divisions=960, qpm=90, qpm2=60, meter=[6, 8])
+  add(template='two_voices', divisions=12, meter=[3, 8])
+  # ---- real files: .xml and .mxl, invalid files
+  J.append({'harness': 'h_file', 'budget_s': 600, 'required': True,
+            'params': {'divisions': 2, 'meter': [3, 4], 'qpm': 90,
+                       'mode': 'minor'}})
+  J.append({'harness': 'h_invalid', 'budget_s': 600, 'required': True,
+            'params': {'cases': sorted(_INVALID)}})
   if deep:
+    J.append({'harness': 'h_file', 'budget_s': 1800, 'required': True,
+              'params': {'divisions': 4, 'meter': [6, 8], 'qpm': 97.3,
+                         'mode': None}})
     for D in (1, 2, 4, 24):
       for meter in ([4, 4], [3, 4], [6, 8], [2, 2], [3, 8]):
         if (D * 4) % meter[1]:
@@ -550,11 +1276,49 @@ def jobs(tier):
             budget=1800)
         add(template='retranspose', divisions=D, meter=meter, transpose=True,
             budget=1800)
-    for kind in sorted(_KIND):
+    for kind in sorted(_KIND12):
       for deg in (None, [9, 'add'], [5, 'alter'], [7, 'subtract']):
         add(template='harmony', divisions=4, budget=900,
             harmony={'root': 'ACEG'[len(kind) % 4], 'kind': kind,
                      'degree': deg, 'bass': 'E', 'offset': True})
     add(template='single', notes=3, steps=['C', 'E', 'G'], mode='major',
         budget=3000, required=False)
+    for D in (1, 4, 24):
+      for meter in ([4, 4], [3, 4], [6, 8], [3, 8]):
+        if (D * 4) % meter[1]:
+          continue
+        for layout in ('fwd_last', 'partial', 'rest_v2', 'chord_v2'):
+          add(template='two_voices', layout=layout, divisions=D, meter=meter,
+              qpm=97.3, budget=1800)
+        add(template='chord', stack=3, divisions=D, meter=meter, mode='minor',
+            fixed_key=True, budget=1800)
+        add(template='rest', rest_at=0, divisions=D, meter=meter, budget=900)
+        for middle in ('forward', 'rest'):
+          add(template='empty_measure', middle=middle, divisions=D,
+              meter=meter, qpm=60, budget=900)
+        for meter2, D2 in (([2, 4], None), ([5, 4], 2), (None, 8), ([6, 8], 4)):
+          add(template='meter_change', divisions=D, meter=meter, meter2=meter2,
+              divisions2=D2, qpm=97.3, budget=900)
+        add(template='parts', n_parts=3, midi=['both', 'both', 'both'],
+            part_keys=[True, 'own', 'own'], part_measures=[1, 2, 2],
+            divisions=D, meter=meter, qpm=97.3, budget=1800)
+        add(template='parts', n_parts=3, midi=['none', 'unlisted', 'both'],
+            part_keys=[True, None, 'same'], part_measures=[2, 1, 2],
+            divisions=D, meter=meter, qpm=60, mode='minor', budget=1800)
+        add(template='single', notes=2, steps=['F', 'B'], transpose=True,
+            tkey='full', divisions=D, meter=meter, budget=1800)
+        add(template='single', notes=2, steps=['D', 'A'], mode=None,
+            no_tempo=True, no_key=True, divisions=D, meter=meter, budget=900)
+        add(template='single', notes=2, steps=['D', 'A'], mode='minor',
+            tempo_mid=97.3, qpm=60, divisions=D, meter=meter, budget=900)
+    for D in (24, 96, 480):
+      add(template='rhythm', divisions=D, budget=900,
+          patterns=['dots_triplets', 'double_dot', 'whole', 'triplet_quarters',
+                    'half_32nds'])
+    for pos in ('start', 'mid', 'm2'):
+      for kind in ('minor-major', 'maj69', 'pedal'):
+        add(template='harmony', divisions=24, qpm=97.3, budget=900,
+            harmony={'root': 'B', 'kind': kind, 'pos': pos, 'offset': True,
+                     'degrees': [[11, 'add'], [9, 'alter']], 'bass': 'F',
+                     'qpm2': 60})
   return J
